@@ -515,7 +515,8 @@ def _peek_file(conv, top):
 # cache + parallel driver
 
 def cache_dir():
-    for d in (os.path.join(VERIF, ".cache"), "/dev/shm/verif-cache"):
+    override = os.environ.get("VERIF_CACHE")
+    for d in ([override] if override else []) + [os.path.join(VERIF, ".cache"), "/dev/shm/verif-cache"]:
         try:
             os.makedirs(d, exist_ok=True)
             if os.access(d, os.W_OK):
@@ -543,8 +544,9 @@ def _cached_load(family, use_cache=True):
             with open(tmp, "wb") as f:
                 pickle.dump(tu, f, protocol=pickle.HIGHEST_PROTOCOL)
             os.replace(tmp, path)
-            # drop stale entries of this family
-            for fn in os.listdir(cd):
+            # drop stale entries of this family (only for the real repository;
+            # scratch copies used by the self-tests come and go)
+            for fn in (os.listdir(cd) if REPO == "/repo" else ()):
                 if fn.startswith("tu-%s-" % family) and fn != os.path.basename(path):
                     try:
                         os.unlink(os.path.join(cd, fn))
